@@ -704,6 +704,9 @@ func (c *Ctx) Eq(x, y *Term) *Term {
 			return c.BNot(x)
 		}
 	}
+	if x.Op == OpZExt && y.Op == OpZExt && x.Args[0].W == y.Args[0].W {
+		return c.Eq(x.Args[0], y.Args[0])
+	}
 	if y.IsConst() && x.W > 0 {
 		switch x.Op {
 		case OpZExt:
